@@ -31,12 +31,14 @@ Fixpoint ty_eqb (a b : ty) : bool :=
   | TEnum x, TEnum y => erows_eqb x y
   | TVar n, TVar m => Nat.eqb n m
   | TForall x, TForall y => ty_eqb x y
+  | TForallR x, TForallR y => ty_eqb x y
   | _, _ => false
   end
 with rows_eqb (r s : rows) : bool :=
   match r, s with
   | RNil, RNil => true
   | RCons f t r', RCons g u s' => String.eqb f g && ty_eqb t u && rows_eqb r' s'
+  | RVar n, RVar m => Nat.eqb n m
   | _, _ => false
   end
 with erows_eqb (r s : erows) : bool :=
@@ -61,22 +63,34 @@ with rows_all_subb (r : rows) (u : ty) {struct r} : bool :=
   match r with
   | RNil => true
   | RCons _ t r' => subb t u && rows_all_subb r' u
+  | RVar _ => false
   end
 with rows_subb (r s : rows) {struct r} : bool :=
   match r, s with
   | RNil, RNil => true
   | RCons f t r', RCons g u s' => String.eqb f g && subb t u && rows_subb r' s'
+  | RVar n, RVar m => Nat.eqb n m
   | _, _ => false
   end.
 
+(* instantiation arguments: a type for a type quantifier, rows for a row quantifier *)
+Inductive targ := ITy (T : ty) | IRow (R : rows).
+
+Fixpoint nodupb (l : list string) : bool :=
+  match l with
+  | [] => true
+  | x :: l' => negb (existsb (String.eqb x) l') && nodupb l'
+  end.
+
 Inductive atm :=
-| AVar (x : string) (insts : list ty)        (* the variable, instantiated (outermost forall first) *)
+| AVar (x : string) (insts : list targ)      (* the variable, instantiated (outermost quantifier first) *)
 | ANum (q : Q)
 | AStr (s : string)
 | ABool (b : bool)
 | ALam (x : string) (A : ty) (b : atm)
 | AApp (f a : atm)
-| ALet (x : string) (k : nat) (e b : atm)    (* generalise k type variables over e *)
+| ALet (x : string) (ks : list bool) (e b : atm)   (* generalise over e: one quantifier per element,
+                                                    outermost first; true = row variable *)
 | AIf (c t e : atm)
 | AArr (T : ty) (es : list atm)
 | ARec (fs : list (string * atm))
@@ -84,7 +98,7 @@ Inductive atm :=
 | ATag (t : string) (r : erows)                 (* the enum type the tag is used at *)
 | AVariant (t : string) (e : atm) (r : erows)
 | AMatch (e : atm) (T : ty) (bs : list (string * option string * atm)) (d : option atm)   (* T: the result type *)
-| APrim (o : prim) (insts : list ty)
+| APrim (o : prim) (insts : list targ)
 | AAnnT (e : atm) (T : ty)
 | AUntyped (u : tm)
 | ACast (e : atm) (T : ty)
@@ -114,38 +128,40 @@ Fixpoint erase (a : atm) : tm :=
   | ASub e _ => erase e
   end.
 
-Fixpoint inst (T : ty) (insts : list ty) : option ty :=
+Fixpoint inst (T : ty) (insts : list targ) : option ty :=
   match insts with
   | [] => Some T
-  | S0 :: rest => match T with
-                 | TForall T' => inst (subst 0 S0 T') rest
-                 | _ => None
-                 end
+  | ITy S0 :: rest => match T with
+                      | TForall T' => inst (subst 0 S0 T') rest
+                      | _ => None
+                      end
+  | IRow R :: rest => match T with
+                      | TForallR T' => inst (substR 0 R T') rest
+                      | _ => None
+                      end
   end.
 
-Fixpoint shift_ctx_n (k : nat) (G : ctx) : ctx :=
-  match k with 0 => G | S k' => shift_ctx (shift_ctx_n k' G) end.
+(* the context under the quantifiers [ks] (outermost first) *)
+Fixpoint ctx_under (ks : list bool) (G : ctx) : ctx :=
+  match ks with
+  | [] => G
+  | false :: ks' => ctx_under ks' (shift_ctx G)
+  | true :: ks' => ctx_under ks' (shiftR_ctx G)
+  end.
 
-Fixpoint foralls (k : nat) (T : ty) : ty :=
-  match k with 0 => T | S k' => TForall (foralls k' T) end.
+Fixpoint foralls (ks : list bool) (T : ty) : ty :=
+  match ks with
+  | [] => T
+  | false :: ks' => TForall (foralls ks' T)
+  | true :: ks' => TForallR (foralls ks' T)
+  end.
 
-(* every row of [e] (looked up in the whole type [r], so that shadowed rows do not count) has an arm
-   of the right shape *)
-Fixpoint exhaustive (r e : erows) (bs : list (string * option string * unit)) : bool :=
+(* every row of [e] has an arm of the right shape *)
+Fixpoint exhaustive (e : erows) (bs : list (string * option string * unit)) : bool :=
   match e with
   | ENil => true
-  | EBare t e' =>
-      (match erows_lookup t r with
-       | Some p => match find_branch t (match p with Some _ => true | None => false end) bs with
-                   | Some _ => true | None => false end
-       | None => true
-       end) && exhaustive r e' bs
-  | EArg t _ e' =>
-      (match erows_lookup t r with
-       | Some p => match find_branch t (match p with Some _ => true | None => false end) bs with
-                   | Some _ => true | None => false end
-       | None => true
-       end) && exhaustive r e' bs
+  | EBare t e' => (match find_branch t false bs with Some _ => true | None => false end) && exhaustive e' bs
+  | EArg t _ e' => (match find_branch t true bs with Some _ => true | None => false end) && exhaustive e' bs
   end.
 
 Section Infer.
@@ -163,9 +179,9 @@ Section Infer.
         | Some (TFun A B), Some A' => if ty_eqb A A' then Some B else None
         | _, _ => None
         end
-    | ALet x k e b =>
-        match infer (shift_ctx_n k G) e with
-        | Some T => infer ((x, foralls k T) :: G) b
+    | ALet x ks e b =>
+        match infer (ctx_under ks G) e with
+        | Some T => infer ((x, foralls ks T) :: G) b
         | None => None
         end
     | AIf c t e =>
@@ -192,16 +208,16 @@ Section Infer.
                                     | _, _ => None
                                     end
                  end) fs with
-        | Some r => Some (TRec r)
+        | Some r => if nodupb (map fst fs) then Some (TRec r) else None
         | None => None
         end
     | AProj e f => match infer G e with
                    | Some (TRec r) => rows_lookup f r
                    | _ => None
                    end
-    | ATag t r => match erows_lookup t r with Some None => Some (TEnum r) | _ => None end
+    | ATag t r => match erows_lookup t false r with Some None => Some (TEnum r) | _ => None end
     | AVariant t e r =>
-        match erows_lookup t r, infer G e with
+        match erows_lookup t true r, infer G e with
         | Some (Some A), Some A' => if ty_eqb A A' then Some (TEnum r) else None
         | _, _ => None
         end
@@ -216,7 +232,7 @@ Section Infer.
                                            | None => false
                                            end
                   | (t, Some x, b) :: bs' =>
-                      match erows_lookup t r with
+                      match erows_lookup t true r with
                       | Some (Some A) => match infer ((x, A) :: G) b with
                                          | Some T' => ty_eqb T T' && all bs'
                                          | None => false
@@ -229,7 +245,7 @@ Section Infer.
                              | Some T' => if ty_eqb T T' then Some T else None
                              | None => None
                              end
-                 | None => if exhaustive r r (map (fun b => (fst b, tt)) bs) then Some T else None
+                 | None => if exhaustive r (map (fun b => (fst b, tt)) bs) then Some T else None
                  end
             else None
         | _ => None
